@@ -209,5 +209,5 @@ def run(tier="quick"):
                        "liveness of the guard's own queue order (C06)"]
     for m in models:
         rep.configs.append(m.config)
-        rules(rep, m)
+        common.run_rules(rep, m, rules)
     return rep.finish()
